@@ -134,6 +134,10 @@ class Connector:
                                       description,
                                       self, noise,
                                       outbound_prologue, inbound_prologue)
+        # track every connection (inbound ones too), so the losers get
+        # closed when another connection wins or when we are stopped
+        self._pending_connections.add(p)
+        p.when_disconnected().addCallback(self._pending_connections.discard)
         return p
 
     @m.state(initial=True)
